@@ -597,6 +597,11 @@ func (propC04) Exec(x any, _ []int32) RunOut {
 				out.Faults["kill@"+strings.Fields(dryMuts[n-1])[1]]++
 			}
 			if inflight >= 0 {
+				tb := uint64(0)
+				if torn {
+					tb = 1
+				}
+				out.InnerNT = append(out.InnerNT, simrt.Mix(out.CaseHash^uint64(n)<<1^tb))
 				out.NonTrivial = true
 				out.Probes["kill-inside-operation"]++
 				if c.Seq.Ops[inflight].K == "commit" {
